@@ -64,6 +64,7 @@ fn program(name: &str, mask: &[&str]) -> (SchemaDoc, QueryDoc) {
             TypeDef::Enum { name: "En".into(), values: vec![at("enum_value")] },
         ],
         schema_block: None,
+        input_defaults: vec![],
     };
     let doc = QueryDoc {
         defs: vec![QDef::Op {
